@@ -114,13 +114,31 @@ def run(ctx: Context, rep) -> None:
         rep.ob("C10.interval", False, loc=we.loc(), where=we.qualname,
                construct="written_examples >= examples_per_shard",
                message="no comparison of the counter with the limit found")
-    guards = [
-        n for n in cfg.find(lambda n: n.kind == "test") if any(
-            ctx.is_call(we, c, method="close_shard")
-            for st in getattr(n.stmt, "body", [])
-            for c in ast.walk(st))
-    ]
-    for gnode in guards:
+    from sa.rules.common import reaches, helper_assigns
+    close_sites = cfg.calls(lambda c: reaches(ctx, we, c, CLOSE_SHARD))
+    if not close_sites:
+        raise AnalysisError("C10: no call in write_example reaches close_shard")
+    # the rollover decision: tests that control whether a close site runs
+    guards = []
+    for n in cfg.find(lambda n: n.kind == "test"):
+        t_succ = [m for m, lab in n.succ if lab == "true"]
+        f_succ = [m for m, lab in n.succ if lab == "false"]
+        rt = cfg.reachable(t_succ, follow=lambda a, b, lab: lab not in ("exc", "raise"))
+        rf = cfg.reachable(f_succ, follow=lambda a, b, lab: lab not in ("exc", "raise"))
+        if any(c in rt for c in close_sites) != any(c in rf for c in close_sites) \
+                and ci.mentions_counter(n.ast) or (
+                    any(c in rt for c in close_sites) and not any(
+                        c in rf for c in close_sites) and any(
+                            isinstance(x, ast.Name) and x.id in ci.defs
+                            for x in ast.walk(n.ast))):
+            guards.append(n)
+    size_guards = [g for g in guards if ci.mentions_counter(g.ast)]
+    if not size_guards:
+        rep.ob("C10.interval", False, loc=we.loc(), where=we.qualname,
+               construct="size test guarding the rollover",
+               message="no comparison of the counter with the limit controls "
+               "the rollover")
+    for gnode in size_guards:
         iv = ci.refine(gnode.ast, True, (None, 0), opaque_bottom=True)
         rep.ob("C10.interval", geq(iv, 0), loc=we.loc(gnode.ast),
                where=we.qualname, construct=short(gnode.ast),
@@ -134,49 +152,51 @@ def run(ctx: Context, rep) -> None:
         "every rebinding of the progress record's shard sits in one block "
         "with `written_examples = 0`, after the close of the previous shard; "
         "every counter reset sits with a shard rebinding")
-    rebinds, resets = [], []
-    for n in we.body_nodes():
-        if isinstance(n, ast.Assign):
-            for t in n.targets:
-                if isinstance(t, ast.Attribute) and t.attr == "shard":
-                    rebinds.append(n)
-                if is_counter(t) and isinstance(n.value, ast.Constant):
-                    resets.append(n)
+    def assigns_shard(st):
+        return isinstance(st, ast.Assign) and any(
+            isinstance(t, ast.Attribute) and t.attr == "shard"
+            for t in st.targets)
 
-    def block_of(stmt):
-        p = parent(stmt)
-        for fld in ("body", "orelse", "finalbody"):
-            b = getattr(p, fld, None)
-            if isinstance(b, list) and stmt in b:
-                return b
-        return []
+    def resets_counter(st):
+        return isinstance(st, ast.Assign) and any(
+            is_counter(t) for t in st.targets) and isinstance(
+                st.value, ast.Constant) and st.value.value == 0
 
-    for rb in rebinds:
-        blk = block_of(rb)
-        i = blk.index(rb)
-        has_reset = any(s in resets for s in blk)
-        closes_before = any(
-            isinstance(c, ast.Call) and ctx.is_call(we, c, method="close_shard")
-            for s in blk[:i]
-            for c in ast.walk(s))
-        new_shard = any(
-            isinstance(c, ast.Call) and
-            any(t.qualname.endswith("_get_new_shard") or t.qualname ==
-                "Shard.__init__" for t in ctx.internal_targets(we, c))
-            for c in ast.walk(rb.value))
-        rep.ob("C10.couple", has_reset and closes_before and new_shard,
-               loc=we.loc(rb), where=we.qualname, construct=short(rb),
-               message="shard rebinding needs: close_shard earlier in the "
-               f"block ({closes_before}), a fresh shard ({new_shard}) and a "
-               f"counter reset in the block ({has_reset})")
-    for rs in resets:
-        blk = block_of(rs)
-        rep.ob("C10.couple", any(s in rebinds for s in blk), loc=we.loc(rs),
-               where=we.qualname, construct=short(rs),
+    norm = lambda a, b, lab: lab not in ("exc", "raise")  # noqa: E731
+    opens = [n for n in cfg.nodes if (n.kind == "stmt" and assigns_shard(n.ast))
+             or (n.kind == "call" and helper_assigns(ctx, we, n.ast,
+                                                    assigns_shard))]
+    resets = [n for n in cfg.nodes if (n.kind == "stmt" and
+                                       resets_counter(n.ast)) or (
+        n.kind == "call" and helper_assigns(ctx, we, n.ast, resets_counter))]
+    if not opens:
+        raise AnalysisError("C10.couple: no shard rebinding in write_example")
+    for o in opens:
+        after = cfg.reachable([o], avoiding=resets, strict=True, follow=norm)
+        if o in resets:
+            after = set()
+        bad = [w for w in writes if w in after]
+        rep.ob("C10.couple", not bad, loc=we.loc(o.ast), where=we.qualname,
+               construct=short(o.ast, 70),
+               message="after a new shard is opened the counter must be "
+               "reset to 0 before the next write (otherwise the new shard is "
+               "closed early or grows past the limit)",
+               path=cfg.describe_path(cfg.path_to(bad[0])) if bad else "")
+        missed = cfg.always_before(close_sites, [o], normal_only=True)
+        rep.ob("C10.couple", not missed, loc=we.loc(o.ast), where=we.qualname,
+               construct="close_shard ... " + short(o.ast, 50),
+               message="the previous shard is closed (and listed) before the "
+               "progress record is pointed at a new one")
+    for r in resets:
+        if r in opens:
+            continue
+        before = cfg.reachable([cfg.entry], avoiding=opens, follow=norm)
+        after = cfg.reachable([r], avoiding=opens, strict=True, follow=norm)
+        bad = r in before and any(w in after for w in writes)
+        rep.ob("C10.couple", not bad, loc=we.loc(r.ast), where=we.qualname,
+               construct=short(r.ast),
                message="a counter reset without a new shard lets a shard grow "
                "beyond the limit")
-    if not rebinds:
-        raise AnalysisError("C10.couple: rollover block not found")
 
     # who may call close_shard
     rep.rule(
@@ -187,12 +207,23 @@ def run(ctx: Context, rep) -> None:
         "only on the size test and the metadata-change flag")
     ex = ctx.fn(EXIT)
     n_calls = 0
+    helpers = set()
+    for f in ctx.repo.all_functions():
+        if f.cls is we.cls and f is not we and f.name.startswith("_") and \
+                ctx.cg.callers(f.fq) == {we.fq} and any(
+                    ctx.is_call(f, c, method="close_shard") for c in f.calls()):
+            helpers.add(f.fq)
+    sites = []
     for f in ctx.repo.all_functions():
         for c in f.calls():
-            if not (ctx.is_call(f, c, method="close_shard") or
-                    any(t.fq == CLOSE_SHARD
-                        for t in ctx.internal_targets(f, c))):
+            if f.fq in helpers:
                 continue
+            direct = ctx.is_call(f, c, method="close_shard") or any(
+                t.fq == CLOSE_SHARD for t in ctx.internal_targets(f, c))
+            via = any(t.fq in helpers for t in ctx.internal_targets(f, c))
+            if direct or via:
+                sites.append((f, c))
+    for f, c in sites:
             n_calls += 1
             guards = []
             cur = c
@@ -204,16 +235,24 @@ def run(ctx: Context, rep) -> None:
                     guards.append(None)
                 cur = p
             if f is we:
-                ok = len(guards) == 1 and guards[0] is not None
+                # an `elif` arm: the chain of tests decides
+                chain = [g for g in guards if g is not None]
+                ok = bool(chain)
                 if ok:
-                    g = guards[0]
+                    g = chain[0]
                     v = Valuation(we, lambda e: "size" if ci.compare_atom(e)
                                   else None, {})
-                    # what the guard depends on (through single defs):
-                    # bare names and attribute reads
                     bare: set[str] = set()
                     attrs: set[str] = set()
                     todo = [g.test]
+                    # tests of enclosing if/elif chain
+                    pp = parent(g)
+                    while isinstance(pp, ast.If) and g in pp.orelse:
+                        todo.append(pp.test)
+                        g2 = pp
+                        pp = parent(pp)
+                        if not (isinstance(pp, ast.If) and g2 in pp.orelse):
+                            break
                     seen_defs: set[str] = set()
                     while todo:
                         e = todo.pop()
@@ -242,8 +281,8 @@ def run(ctx: Context, rep) -> None:
                 else:
                     rep.ob("C10.close", False, loc=f.loc(c), where=f.qualname,
                            construct=short(c),
-                           message="close_shard in write_example must sit in "
-                           "the true branch of exactly one rollover guard")
+                           message="close_shard in write_example must sit "
+                           "under a rollover guard")
             elif f is ex:
                 ok = len(guards) == 1 and guards[0] is not None
                 detail = ""
